@@ -11,6 +11,7 @@ Model: which metrics must be asked, how many answers each question consumes, the
 """
 
 import io
+import re
 import sys
 
 from .ref import tables as T
@@ -20,20 +21,20 @@ VERSION_ARG = {"2": 2, "3.0": 3.0, "3.1": 3.1, "4.0": 4.0}
 _KW_COMMON = {
     "C": ("confidentiality",), "I": ("integrity",), "A": ("availability",),
     "CR": ("confidentiality", "req"), "IR": ("integrity", "req"), "AR": ("availability", "req"),
-    "RL": ("remediation",), "RC": ("report",),
+    "RL": ("remediation",), "RC": ("report", "confidence"),
 }
 KEYWORDS = {
     "2": dict(_KW_COMMON, AV=("access", "vector"), AC=("access", "complexity"),
-              Au=("authentication",), E=("exploitability",), CDP=("collateral",), TD=("target",)),
+              Au=("authentication",), E=("exploitability",), CDP=("collateral",), TD=("target", "distribution")),
     "3": dict(_KW_COMMON, AV=("attack", "vector"), AC=("attack", "complexity"),
-              PR=("privileges",), UI=("user",), S=("scope",), E=("exploit",),
+              PR=("privileges",), UI=("user", "interaction"), S=("scope",), E=("exploit",),
               MAV=("modified", "attack", "vector"), MAC=("modified", "attack", "complexity"),
-              MPR=("modified", "privileges"), MUI=("modified", "user"), MS=("modified", "scope"),
+              MPR=("modified", "privileges"), MUI=("modified", "user", "interaction"), MS=("modified", "scope"),
               MC=("modified", "confidentiality"), MI=("modified", "integrity"),
               MA=("modified", "availability")),
     "4": {
         "AV": ("attack", "vector"), "AC": ("attack", "complexity"), "AT": ("attack", "req"),
-        "PR": ("privileges",), "UI": ("user",),
+        "PR": ("privileges",), "UI": ("user", "interaction"),
         "VC": ("vulnerable", "confidentiality"), "VI": ("vulnerable", "integrity"),
         "VA": ("vulnerable", "availability"),
         "SC": ("subsequent", "confidentiality"), "SI": ("subsequent", "integrity"),
@@ -42,17 +43,20 @@ KEYWORDS = {
         "CR": ("confidentiality", "req"), "IR": ("integrity", "req"), "AR": ("availability", "req"),
         "MAV": ("modified", "attack", "vector"), "MAC": ("modified", "attack", "complexity"),
         "MAT": ("modified", "attack", "req"), "MPR": ("modified", "privileges"),
-        "MUI": ("modified", "user"),
+        "MUI": ("modified", "user", "interaction"),
         "MVC": ("modified", "vulnerable", "confidentiality"),
         "MVI": ("modified", "vulnerable", "integrity"),
         "MVA": ("modified", "vulnerable", "availability"),
         "MSC": ("modified", "subsequent", "confidentiality"),
         "MSI": ("modified", "subsequent", "integrity"),
         "MSA": ("modified", "subsequent", "availability"),
-        "S": ("safety",), "AU": ("automatable",), "R": ("recovery",), "V": ("value",),
-        "RE": ("response",), "U": ("urgency",),
+        "S": ("safety",), "AU": ("automatable",), "R": ("recovery",), "V": ("value", "density"),
+        "RE": ("response", "effort"), "U": ("urgency",),
     },
 }
+
+
+_ABBREV_AT_START = re.compile(r"\s*([A-Za-z]{1,3})\s*(?:[:\[(=?]|$)")
 
 
 def attribute(fam, name):
@@ -65,7 +69,15 @@ def attribute(fam, name):
                 best, best_n, tie = m, len(kws), False
             elif len(kws) == best_n:
                 tie = True
-    return None if tie else best
+    if best is not None:
+        return None if tie else best
+    # no metric name in the text: a question may name the metric by its abbreviation alone
+    # ("MAV [X/N/A/L/P]: "). Only an abbreviation that opens the line and is followed by
+    # punctuation counts - "A valid value is required" does not ask about Availability.
+    mt = _ABBREV_AT_START.match(name)
+    if mt and mt.group(1) in KEYWORDS[fam[0]]:
+        return mt.group(1)
+    return None
 
 
 class EndOfScript(Exception):
@@ -91,25 +103,38 @@ class ReactiveStdin(object):
             self.pending, line = line[size:], line[:size]
         return line
 
-    def _rest(self):
+    def _pending_question(self):
+        """(metric, prompt text) of the question that is waiting for an answer. The statement fixes
+        neither the wording nor the layout of a question: the last line printed since the previous
+        answer that names a metric decides (the prompt may be followed by a line of its own such as
+        "> "); if nothing printed since the previous answer names a metric at all, the question is
+        taken to be the previous one asked again ("Invalid value, try again:")."""
         text = self.out.getvalue()
         new = text[self.mark:]
         self.mark = len(text)
-        last = new.rsplit("\n", 1)[-1]
-        name = last.rsplit(":", 1)[0] if ":" in last else last
-        self.asked.append(attribute(self.fam, name))
+        lines = new.split("\n")
+        for line in reversed(lines):
+            name = line.rsplit(":", 1)[0] if ":" in line else line
+            m = attribute(self.fam, name)
+            if m is None and name != line:
+                m = attribute(self.fam, line)
+            if m is not None:
+                return m, line
+        last = lines[-1]
+        if self.asked and self.asked[-1] is not None:
+            return self.asked[-1], last
+        return None, last
+
+    def _rest(self):
+        m, last = self._pending_question()
+        self.asked.append(m)
         self.prompts.append(last)
         self.answers.append("<rest of the previous answer line>")
         line, self.pending = self.pending, ""
         return line
 
     def _next_line(self):
-        text = self.out.getvalue()
-        new = text[self.mark:]
-        self.mark = len(text)
-        last = new.rsplit("\n", 1)[-1]
-        name = last.rsplit(":", 1)[0] if ":" in last else last
-        m = attribute(self.fam, name)
+        m, last = self._pending_question()
         self.asked.append(m)
         self.prompts.append(last)
         q = self.script.get(m)
